@@ -26,6 +26,32 @@ pub open spec fn row_updated(row: Seq<AdjacentNode>, row2: Seq<AdjacentNode>, v:
     &&& forall|k: int| 0 <= k < row.len() && (k >= upto || row[k].node_index != v) ==> (#[trigger] row2[k]).weight == row[k].weight
 }
 
+// ---- functional form of the traversal-list update ----
+pub open spec fn upd_entry(a: AdjacentNode, v: usize, w: f64, replace: bool) -> AdjacentNode {
+    if a.node_index == v { AdjacentNode { node_index: v, weight: upd_weight(a.weight, w, replace) } } else { a }
+}
+
+pub open spec fn row_apply(row: Seq<AdjacentNode>, v: usize, w: f64, ex: bool, replace: bool) -> Seq<AdjacentNode> {
+    if ex {
+        Seq::new(row.len(), |k: int| upd_entry(row[k], v, w, replace))
+    } else {
+        row.push(AdjacentNode { node_index: v, weight: w })
+    }
+}
+
+pub open spec fn rows_of(vv: Seq<Vec<AdjacentNode>>) -> Seq<Seq<AdjacentNode>> {
+    Seq::new(vv.len(), |i: int| vv[i]@)
+}
+
+pub open spec fn adj_apply(rows: Seq<Seq<AdjacentNode>>, u: usize, v: usize, w: f64, ex: bool, replace: bool) -> Seq<Seq<AdjacentNode>> {
+    rows.update(u as int, row_apply(rows[u as int], v, w, ex, replace))
+}
+
+// rows padded with empty rows up to n (what add_node does for each created node)
+pub open spec fn rows_ext(rows: Seq<Seq<AdjacentNode>>, n: nat) -> Seq<Seq<AdjacentNode>> {
+    Seq::new(n, |i: int| if i < rows.len() { rows[i] } else { Seq::<AdjacentNode>::empty() })
+}
+
 //@ extract fn src/graph/creation.rs add_to_adjacency_vec props=C03,C20
 //@ spec
     requires
@@ -38,11 +64,28 @@ pub open spec fn row_updated(row: Seq<AdjacentNode>, row2: Seq<AdjacentNode>, v:
         !edge_already_exists ==> final(adjacency_vec)[u_node_index as int]@ == old(adjacency_vec)[u_node_index as int]@.push(AdjacentNode { node_index: v_node_index, weight: weight }),
         // [C03.adjvec.existing_pair_min_or_replace]
         edge_already_exists ==> row_updated(old(adjacency_vec)[u_node_index as int]@, final(adjacency_vec)[u_node_index as int]@, v_node_index, weight, replace, old(adjacency_vec)[u_node_index as int]@.len() as int),
+        // [C03.adjvec.functional_form]
+        rows_of(final(adjacency_vec)@) == adj_apply(rows_of(old(adjacency_vec)@), u_node_index, v_node_index, weight, edge_already_exists, replace),
 //@ loop 1
                 invariant
                     u_node_index < adjacency_vec.len(),
                     adjacency_vec.len() == old(adjacency_vec).len(),
                     forall|i: int| 0 <= i < old(adjacency_vec).len() && i != u_node_index ==> adjacency_vec[i] == old(adjacency_vec)[i],
                     row_updated(old(adjacency_vec)[u_node_index as int]@, adjacency_vec[u_node_index as int]@, v_node_index, weight, replace, index as int),
+//@ tail
+    proof {
+        let r0 = rows_of(old(adjacency_vec)@);
+        let r1 = rows_of(adjacency_vec@);
+        let want = adj_apply(r0, u_node_index, v_node_index, weight, edge_already_exists, replace);
+        assert(r1.len() == want.len());
+        assert forall|i: int| 0 <= i < r1.len() implies r1[i] == want[i] by {
+            if i == u_node_index as int {
+                assert(r1[i] =~= want[i]);
+            } else {
+                assert(adjacency_vec[i] == old(adjacency_vec)[i]);
+            }
+        }
+        assert(r1 =~= want);
+    }
 //@ end
 
